@@ -28,7 +28,7 @@ NSHARD = 32
 
 def plan(tier, seed):
     q = tier == "quick"
-    return [{"name": "s%d" % i, "i": i, "c": 10 if q else 300, "l1": 90 if q else 1700} for i in range(NSHARD)]
+    return [{"name": "s%d" % i, "i": i, "c": 10 if q else 1200, "l1": 90 if q else 8000} for i in range(NSHARD)]
 
 
 LABELS = ["A", "B", "popC", "D_4", "e", "YRI", "CEU", "x.y", "P-1", "pop A", "pop B", "a b c", "Z "]
